@@ -1866,7 +1866,8 @@ def c05_timing(ctx):
     The growth is measured in executed instructions (deterministic up to < 1 %), the wall clock only bounds the absolute time."""
     out = {}
     viol = []
-    base = 200 if ctx.quick else 400
+    base = 200 if ctx.quick else 400          # the quadratic families; the linear ones are measured at 4x these sizes, where a
+                                              # quadratic term with a small constant already shows (seeded change C05-e)
     kinds = (("bounded-keys", "linear"), ("unbounded-keys", "quadratic"), ("long-attribute-list", "linear"), ("quotes-and-separators", "linear"),
              ("master-groups", "quadratic"), ("master-session-data", "linear"),
              ("byte-ranges", "linear"), ("date-ranges", "linear"), ("unknown-tags", "linear"), ("discontinuities", "linear"),
@@ -1881,7 +1882,7 @@ def c05_timing(ctx):
         us = int(o.split(" ")[1]) if o.startswith("ok ") else None
         ins = _instructions(line) if startup is not None else None
         return (n, len(text), us, None if ins is None else max(ins - startup, 1))
-    jobs = [(k, n) for k, _ in kinds for n in (base, base * 2, base * 4)]
+    jobs = [(k, n * (4 if g == "linear" else 1)) for k, g in kinds for n in (base, base * 2, base * 4)]
     with ThreadPoolExecutor(max_workers=min(len(jobs), C.NCPU)) as ex:
         res = list(ex.map(lambda kn: one(*kn), jobs))
     for idx, (kind, growth) in enumerate(kinds):
